@@ -239,7 +239,7 @@ def _storage_topological(c):
 
 
 def codec_family(rnd, count, thorough):
-    fam = list(circgen.feature_circuits())
+    fam = list(circgen.feature_circuits()) + circgen.large_circuits(0)
     # zero inputs with 2^k gates; zero outputs; many outputs
     for k in (1, 2, 3, 4):
         gates = [("t0", G.ALWAYS_TRUE, ())] + [(f"n{i}", G.NOT, (f"n{i - 1}" if i > 1 else "t0",)) for i in range(1, 1 << k)]
